@@ -132,9 +132,11 @@ pub fn enter_bytes(rng: &mut Rng) -> Vec<u8> {
 /// between keys, or (profile.inject_between_bytes) between any two bytes.
 pub fn gen_session(rng: &mut Rng, p: &Profile) -> (SessionCfg, Vec<Op>) {
     let set = *rng.pick(&p.sets);
+    // boundary grid most of the time, any size 0..=48 otherwise (a bug may need a size off the grid)
+    let off_grid = p.cmd_sizes.len() > 6 && rng.chance(35);
     let cfg = SessionCfg {
-        cmd: *rng.pick(&p.cmd_sizes),
-        hist: *rng.pick(&p.hist_sizes),
+        cmd: if off_grid { rng.below(49) } else { *rng.pick(&p.cmd_sizes) },
+        hist: if off_grid || (p.hist_sizes.len() > 6 && rng.chance(25)) { rng.below(49) } else { *rng.pick(&p.hist_sizes) },
         prompt: rng.below(PROMPTS.len()),
         set,
         use_new: rng.chance(5),
